@@ -169,6 +169,9 @@ type conf struct {
 	maxInvoke int32
 	ordered   bool
 	client    bool // client-side receive path instead of server-side
+	// client only: the first connection ends in the middle of a packet (partial bytes, then close);
+	// the client reconnects with its next request and receives c.items on the second connection
+	reconnectAfterPartial int
 }
 
 func scenario(c conf) *vm.Scenario {
@@ -232,7 +235,23 @@ func clientMain(c conf) {
 		panic(err)
 	}
 	done := make(chan struct{}, 1)
+	first := make(chan struct{}, 1)
 	vm.GoNamed("peerA", func() {
+		if c.reconnectAfterPartial > 0 {
+			// first connection: a packet is cut off by the close
+			cn, err := ln.Accept()
+			if err != nil {
+				panic(err)
+			}
+			tc := cn.(*vnet.TCPConn)
+			buf := make([]byte, 64)
+			tc.Read(buf)
+			cut, _ := build([]item{{L: 24}}, 0x40)
+			tc.Write(cut[:c.reconnectAfterPartial])
+			vm.Block("peer-wait-drain", func() bool { return tc.PeerUnread() == 0 || tc.PeerClosed() })
+			tc.Close()
+			vm.Send(first, struct{}{})
+		}
 		cn, err := ln.Accept()
 		if err != nil {
 			panic(err)
@@ -251,6 +270,13 @@ func clientMain(c conf) {
 		IdleTimeout: 600 * time.Second, DialTimeout: time.Second})
 	if err := cl.Send([]byte{0, 0, 0, 6, 9, 9}); err != nil {
 		panic(err)
+	}
+	if c.reconnectAfterPartial > 0 {
+		vm.Recv(first)
+		vm.Sleep(int64(1500 * time.Millisecond)) // the old sender has noticed the close by then
+		if err := cl.Send([]byte{0, 0, 0, 6, 8, 8}); err != nil {
+			panic(err)
+		}
 	}
 	vm.Recv(done)
 	vm.Sleep(int64(2 * time.Second))
@@ -333,6 +359,20 @@ func firstLine(s string) string {
 		return s[:i]
 	}
 	return s
+}
+
+func fixed(sizes ...int) func() chunker {
+	return func() chunker {
+		i := 0
+		return func(rem int) int {
+			k := rem
+			if i < len(sizes) && sizes[i] < rem {
+				k = sizes[i]
+			}
+			i++
+			return k
+		}
+	}
 }
 
 func main() {
@@ -418,19 +458,6 @@ func main() {
 		add(conf{name: side + " max=4096 exact big", items: []item{V(4096), V(6)}, maxLen: 4096, ch: func() chunker { return menuChunker(menu) }, client: client}, 0, true)
 		add(conf{name: side + " max=4096 plus1 big", items: []item{V(6), I(4097), V(6)}, maxLen: 4096, ch: func() chunker { return menuChunker(menu) }, client: client}, 0, true)
 		// (5) schedules: a few partitions under every schedule with <=1 / <=2 deviations
-		fixed := func(sizes ...int) func() chunker {
-			return func() chunker {
-				i := 0
-				return func(rem int) int {
-					k := rem
-					if i < len(sizes) && sizes[i] < rem {
-						k = sizes[i]
-					}
-					i++
-					return k
-				}
-			}
-		}
 		b := 1
 		if run.Thorough() {
 			b = 2
@@ -438,6 +465,22 @@ func main() {
 		add(conf{name: side + " sched 5+6 one-chunk", items: []item{V(5), V(6)}, maxLen: 64, ch: fixed(11), client: client}, b, true)
 		add(conf{name: side + " sched 5+6 split 3,4,4", items: []item{V(5), V(6)}, maxLen: 64, ch: fixed(3, 4, 4), client: client}, b, true)
 		add(conf{name: side + " sched illegal-mid", items: []item{V(5), I(2), V(5)}, maxLen: 64, ch: fixed(7, 7), client: client}, b, true)
+	}
+	// (5b) client: the first connection ends inside a packet, the client reconnects: nothing of the
+	// old stream may leak into the new one
+	for _, cut := range []int{1, 3, 4, 5, 23} {
+		add(conf{name: fmt.Sprintf("client reconnect after %d bytes of a cut packet", cut), items: []item{V(5), V(6)}, maxLen: 64, ch: comp, client: true, reconnectAfterPartial: cut}, 0, true)
+	}
+	add(conf{name: "client reconnect after cut packet sched", items: []item{V(5), V(6)}, maxLen: 64, ch: fixed(11), client: true, reconnectAfterPartial: 7}, 1, true)
+	// (5c) packets beyond 64 KiB followed by small ones in the same read
+	for _, client := range []bool{false, true} {
+		side := "server"
+		if client {
+			side = "client"
+		}
+		hm := []int{4096, 65536, 70001}
+		add(conf{name: side + " huge 70000,30,50", items: []item{V(70000), V(30), V(50)}, maxLen: 1 << 20, ch: func() chunker { return menuChunker(hm) }, client: client}, 0, true)
+		add(conf{name: side + " huge 4,131072,9", items: []item{V(4), V(131072), V(9)}, maxLen: 1 << 20, ch: func() chunker { return menuChunker(hm) }, client: client}, 0, true)
 	}
 	// (6) server only: worker pool, and a second connection in parallel
 	add(conf{name: "server pool=1 seq 5,6,4 all-compositions", items: []item{V(5), V(6), V(4)}, maxLen: 64, ch: comp, maxInvoke: 1}, 0, true)
